@@ -54,7 +54,10 @@ def cases(draw, rl):
     if rl:
         cfg["rl"] = {"alpha": -1, "eps": draw(st.sampled_from([0.0, 0.5])), "agent_seed": 3, "sched_seed": 4}
     return {"cfg": cfg, "n": draw(st.integers(1, 6)), "folder": (not rl) and draw(st.booleans()),
-            "base_exception": draw(st.sampled_from([False, False, True, "stop"]))}
+            "base_exception": draw(st.sampled_from([False, False, True, "stop"])),
+            # RL only: an agent thread that is slow to get going (its environment takes a moment to reset) - the session may
+            # be torn down before the agent has done anything
+            "slow_agent_start": rl and draw(st.integers(0, 7)) == 0}
 
 
 def instrumented(cfg, folder, fault):
@@ -78,6 +81,15 @@ def instrumented(cfg, folder, fault):
     loss = MeanAbsLoss()
     cal = calib.build(cfg, model=model, loss=loss, saving_folder=folder)
     holder["cal"] = cal
+    if cfg.get("slow_agent_start") and hasattr(cal.scheduler, "_env"):
+        import time
+        env = cal.scheduler._env  # noqa: SLF001
+        reset0 = env.reset
+
+        def slow_reset(*a, **k):
+            time.sleep(0.05)
+            return reset0(*a, **k)
+        env.reset = slow_reset
     orig_loss = loss.compute_loss
 
     def compute_loss(sim, real):
@@ -132,7 +144,7 @@ def cleanup_threads(cal, before):
 
 
 def check_faults(ctx: Ctx, case):
-    cfg, n = case["cfg"], case["n"]
+    cfg, n = dict(case["cfg"], slow_agent_start=bool(case.get("slow_agent_start"))), case["n"]
     rl = bool(cfg.get("rl"))
     sub = "rl" if rl else "round_robin"
     root = tempfile.mkdtemp(prefix="c11-")
